@@ -255,6 +255,8 @@ func MapErr(err error) string {
 	}
 	has := func(s string) bool { return strings.Contains(m, s) }
 	switch {
+	case has("in read-only transaction"):
+		return "read-only"
 	case has("index is stale"):
 		return "cas-stale"
 	case has("lock is already held"):
